@@ -49,11 +49,66 @@ theorem div_vector (hnz : ∀ j, j < dims → S.divOk (b.get j) = true) :
 
 end generic
 
+/-! ### vector × scalar -/
+
+def ExactMap1v (f : T → T → T) (dims : Nat) (value : T) (a result : Slice T) (out : Exec (Slice T)) : Prop :=
+  ∃ res', out = pure res' ∧ res'.size = dims ∧ (∀ j, j < dims → res'.get j = f (a.get j) value)
+    ∧ (∀ j, dims ≤ j → res'.get j = result.get j)
+
+section generic_value
+variable (AF : ArithFaithful R L lanes S) (MFa : MathFaithful M S)
+variable (dims : Nat) (value : T) (a result : Slice T) (ha : a.size = dims) (hr : result.size = dims)
+variable (hfuel : dims < E.fuel)
+include AF MFa ha hr hfuel
+
+theorem arithValue_spec {f : T → T → T} {ok : T → Prop}
+    {opDense : DenseLane Reg → DenseLane Reg → Exec (DenseLane Reg)} {opReg : Reg → Reg → Exec Reg}
+    {opTail : T → T → Exec T} (LW : Lanewise2 L lanes f ok opReg opDense) (SC : Scalar2 f ok opTail)
+    (hok : ok value) :
+    ExactMap1v f dims value a result (Shapes.arithValueT E R opDense opReg opTail dims value a result) := by
+  unfold Shapes.arithValueT
+  rw [ha, hr]
+  simp only [debugAssertEq_self, pure_bind]
+  obtain ⟨vr, e, hv⟩ := AF.bcast.filled_ok value
+  rw [e]; simp only [pure_bind]
+  exact map1vCore_spec AF.mem LW SC dims value vr (DenseLane.copy vr) hv
+    (fun k hk => by rw [dlanes_copy AF.mem.L_pos vr k hk]; exact hv _ (Nat.mod_lt _ AF.mem.L_pos))
+    a result ha hr hok hfuel
+
+theorem minmaxValue_spec {f : T → T → T} {ok : T → Prop}
+    {opDense : DenseLane Reg → DenseLane Reg → Exec (DenseLane Reg)} {opReg : Reg → Reg → Exec Reg}
+    {opTail : T → T → Exec T} (LW : Lanewise2 L lanes f ok opReg opDense) (SC : Scalar2 f ok opTail)
+    (hok : ok value) :
+    ExactMap1v f dims value a result (Shapes.minmaxValueT E R opDense opReg opTail dims value a result) := by
+  unfold Shapes.minmaxValueT
+  rw [ha]
+  simp only [debugAssertEq_self, pure_bind]
+  obtain ⟨bd, e, hvd, hva⟩ := AF.bcast.filled_dense_ok value
+  rw [e]; simp only [pure_bind]
+  exact map1vCore_spec AF.mem LW SC dims value bd.a bd hva hvd a result ha hr hok hfuel
+
+theorem add_value : ExactMap1v S.add dims value a result (generic_add_value E R M dims value a result) := by
+  rw [Shapes.add_value]
+  exact arithValue_spec AF MFa dims value a result ha hr hfuel AF.add (fun x y _ => MFa.add x y) trivial
+theorem sub_value : ExactMap1v S.sub dims value a result (generic_sub_value E R M dims value a result) := by
+  rw [Shapes.sub_value]
+  exact arithValue_spec AF MFa dims value a result ha hr hfuel AF.sub (fun x y _ => MFa.sub x y) trivial
+theorem mul_value : ExactMap1v S.mul dims value a result (generic_mul_value E R M dims value a result) := by
+  rw [Shapes.mul_value]
+  exact arithValue_spec AF MFa dims value a result ha hr hfuel AF.mul (fun x y _ => MFa.mul x y) trivial
+/-- `a[j] / value` (the vector is the dividend), for a divisor the scalar division does not panic on -/
+theorem div_value (hnz : S.divOk value = true) :
+    ExactMap1v S.div dims value a result (generic_div_value E R M dims value a result) := by
+  rw [Shapes.div_value]
+  exact arithValue_spec AF MFa dims value a result ha hr hfuel AF.div (fun x y h => MFa.div_ok x y h) hnz
+
+end generic_value
+
 /-! ### the Fallback backend, every element type at once -/
 
 theorem fallback_arith (E : Env) {T : Type} (AM : Math T) (S : ScalarSpec T) (sz : Nat) (hsz : 0 < sz)
     (MFa : MathFaithful AM S) : ArithFaithful (Fallback.inst E AM sz) 1 C13Fallback.lanes1 S :=
-  ⟨C13Fallback.mem E AM sz hsz, C13Fallback.add E AM sz MFa, C13Fallback.sub E AM sz MFa,
+  ⟨C13Fallback.mem E AM sz hsz, C13Fallback.bcast E AM sz, C13Fallback.add E AM sz MFa, C13Fallback.sub E AM sz MFa,
    C13Fallback.mul E AM sz MFa, C13Fallback.div E AM sz MFa, C13Fallback.max E AM sz MFa,
    C13Fallback.min E AM sz MFa⟩
 
